@@ -44,6 +44,7 @@ func c12build() *c12world {
 	w.re["R6"].MatchTimeout = 5 * time.Millisecond
 	add("R7", `(a)(b)`, regexp2.OptionMaxCachedReplacerDataEntries(1)) // replacement cache of 1
 	add("R8", `(a)|b`, regexp2.RightToLeft)                            // right-to-left drivers (own buffer handling)
+	add("R9", `(a|b)*!`)                                               // one call drives the backtracking stack to tens of thousands of frames
 	return w
 }
 
@@ -147,6 +148,10 @@ func c12calls() []c12call {
 	find("R8", "zab", `"zab"`)
 	all("R8", "abba", `"abba"`)
 	split("R8", "cabc", `"cabc"`)
+	// R9 a deep backtracking stack (what a pooled runner keeps, drops or shrinks afterwards must not show)
+	ms("R9", strings.Repeat("ab", 3000)+"!", "6001 runes (stack of ~32k frames)")
+	find("R9", "xx abba! yy", `"xx abba! yy"`)
+	ms("R9", "ab!", `"ab!"`)
 	// R6 timed catastrophic match (virtual time: each timeout check costs this thread 1 ms)
 	add("R6.MatchString(timeout)", func(w *c12world) string {
 		t := vsched.Cur()
@@ -338,6 +343,7 @@ func runC12(c *Ctx) {
 		uni{"R1 replacements (cache of 2, six replacement strings)", pick("R1.Replace(\"", "R1.MatchString(\"xab\")"), small},
 		uni{"R7 replacements (cache of 1)", pick("R7.", "event:gc"), small},
 		uni{"R8 right-to-left + R1 (global pools)", pick("R8.", "R1.MatchString(\"xab\")", "R1.Find+Groups", "event:"), small},
+		uni{"R9 deep stack", pick("R9.", "event:"), small},
 		uni{"R2 balancing", pick("R2.", "event:"), small},
 		uni{"R3 stack-limited", pick("R3.", "event:"), small},
 		uni{"R4 sparse", pick("R4.", "event:"), small},
